@@ -337,13 +337,16 @@ func (mc *MemoryChannel) appendAof(writer *MemoryAofWriter, buf []byte) (int, er
 }
 
 func (mc *MemoryChannel) finishAof(writer *MemoryAofWriter, err error) {
-	seg := writer.currentSegment()
-	if seg != nil {
-		seg.close(err)
-	}
-
+	// under the lock: the writer may be closed from outside while its own goroutine is in appendAof. If the
+	// segment were picked before, appendAof could still rotate to a new segment, which nobody would ever
+	// close - a reader arriving there waits for ever in front of the segments of the next writer
 	mc.mux.Lock()
 	defer mc.mux.Unlock()
+	seg := writer.currentSegment()
+	if seg != nil {
+		seg.blob.close(err)
+		mc.signalSpaceLocked()
+	}
 	if mc.aofWriter == writer {
 		mc.aofWriter = nil
 	}
